@@ -318,6 +318,12 @@ def eq(a, b):
             return FALSE
         if a.hi is not None and b.lo is not None and a.hi < b.lo:
             return FALSE
+        if a.op != 'const' and b.op != 'const':
+            d = add(b, neg(a))
+            if d.op == 'const':
+                return BoolVal(d.args[0] == 0)
+            if (d.lo is not None and d.lo > 0) or (d.hi is not None and d.hi < 0):
+                return FALSE
         if b.op != 'const' and a.op == 'const':
             a, b = b, a
         if b.op == 'const' and a.op == 'add' and a.args[-1].op == 'const':
@@ -337,6 +343,12 @@ def le(a, b):
         return TRUE
     if a.lo is not None and b.hi is not None and a.lo > b.hi:
         return FALSE
+    if a.op != 'const' and b.op != 'const':
+        d = add(b, neg(a))          # common symbolic parts cancel: stream offsets compare without the solver
+        if d.lo is not None and d.lo >= 0:
+            return TRUE
+        if d.hi is not None and d.hi < 0:
+            return FALSE
     if b.op == 'const' and a.op == 'add' and a.args[-1].op == 'const':
         rest = a.args[:-1]
         lhs = rest[0] if len(rest) == 1 else mk('add', rest, INT)
@@ -417,6 +429,15 @@ def If(c, a, b):
     if a.sort == INT and t.lo is None and t.hi is None:
         t.lo = min(a.lo, b.lo) if a.lo is not None and b.lo is not None else None
         t.hi = max(a.hi, b.hi) if a.hi is not None and b.hi is not None else None
+    return t
+
+
+def HexDigit(b, hi):
+    """ASCII code of the high / low lowercase hex digit of byte term b (an Int term in 0..255)."""
+    if b.op == 'const':
+        return IntVal(ord(('%02x' % b.args[0])[0 if hi else 1]))
+    t = mk('hexhi' if hi else 'hexlo', (b,), INT)
+    t.lo, t.hi = 48, 102
     return t
 
 
@@ -525,6 +546,10 @@ def to_z3(t):
         z = _z3.Or([to_z3(x) for x in a])
     elif op == 'ite':
         z = _z3.If(to_z3(a[0]), to_z3(a[1]), to_z3(a[2]))
+    elif op in ('hexhi', 'hexlo'):
+        b = to_z3(a[0])
+        n = b / 16 if op == 'hexhi' else b % 16
+        z = _z3.If(n < 10, 48 + n, 87 + n)
     elif op == 'bvvar':
         z = _z3.BitVec(a[0], a[1])
     elif op == 'bvconst':
@@ -670,6 +695,8 @@ def evaluate(t, model):
         return any(evaluate(x, model) for x in a)
     if op == 'ite':
         return evaluate(a[1], model) if evaluate(a[0], model) else evaluate(a[2], model)
+    if op in ('hexhi', 'hexlo'):
+        return ord(('%02x' % evaluate(a[0], model))[0 if op == 'hexhi' else 1])
     raise NotImplementedError('evaluate ' + op)
 
 
